@@ -145,6 +145,9 @@ def run(chk):
         J, cat = A.gen_matrix(rng, cat=forced or rng.choice(["generic", "dup_rows", "bad_scale", "generic", "tall",
                                                               "const_col", "few_values"]),
                               mmax=7, nmax=5)
+        while forced and len(J) < (3 if it % 2 == 0 else 5):
+            # the forced cases keep their ties: enough rows for b = 1 resp. b = 2 without appended rows
+            J, cat = A.gen_matrix(rng, cat=forced, mmax=7, nmax=5)
         if len(J) < 3 and rng.random() < 0.8:
             J = J + [[x + 1 for x in J[0]], [x - 2 for x in J[0]], [2 * x for x in J[0]]]
         m = len(J)
@@ -186,6 +189,17 @@ def run(chk):
         f, k = (m - 2 + rng.randint(0, 1), 1) if rng.random() < 0.5 else (0, m + 1)
         cases.append({"name": "Krum", "params": {"f": max(f, 0), "k": k}, "J": J, "cat": "too_few_rows",
                       "honest_rows": list(range(m))})
+    # the rejection boundary, not left to chance: exactly f + 2 rows (one fewer than the minimum), f + 1 rows,
+    # and n_selected = m + 1, for every m in 2..4
+    for m in (2, 3, 4):
+        J = [[F(rng.randint(-4, 4)) for _ in range(3)] for _ in range(m)]
+        for f, k in ((m - 2, 1), (m - 2, min(2, m)), (m - 1, 1), (0, m + 1)):
+            cases.append({"name": "Krum", "params": {"f": f, "k": k}, "J": J, "cat": "too_few_rows",
+                          "honest_rows": list(range(m))})
+    for m in (1, 2, 3, 4):
+        J = [[F(rng.randint(-4, 4)) for _ in range(3)] for _ in range(m)]
+        cases.append({"name": "TrimmedMean", "params": {"b": m // 2 if m % 2 == 0 else (m + 1) // 2}, "J": J,
+                      "cat": "too_few_rows", "honest_rows": list(range(m))})
     # correspondence with the model (identity of Krum's selection only away from score ties)
     corr = [c for c in cases if A.exactly_representable(c["J"], "f32") and
             (c["name"] != "Krum" or c["cat"] == "too_few_rows" or
